@@ -6,7 +6,8 @@
     on the Gaussian rationals; TLC checks Restored, NoSensLeft, Visited and Verdict (a right adjoint is
     reported with exactly matching pairs on affine networks, a wrong one is not).
 [R] every case is run through pymoto.finite_difference with a recording test_fn; the callback sequence
-    (x0, dx, analytical, numerical) and the final states / sensitivities are compared with TLC's.
+    (x0, dx, analytical, numerical) and the final states / sensitivities are compared with TLC's, with the source
+    signals realised as plain Signals, as Signals with an allocated sensitivity, and as SignalSlice views.
 """
 import contextlib
 import io
@@ -191,7 +192,12 @@ def concrete(sigdef, cplx):
     return arr if (cplx or np.any(arr.imag != 0)) else arr.real.copy()
 
 
-def run_case(c, expected):
+REALISATIONS = ("plain", "prealloc", "slice")
+
+
+def run_case(c, expected, real="plain"):
+    """real: how the source signals exist in the library - plain Signals, Signals constructed with an allocated sensitivity
+    (reset() then zeroes it in place instead of dropping it), or SignalSlice views into a larger signal"""
     global _CL
     import pymoto as pym
     if _CL is None:
@@ -200,8 +206,17 @@ def run_case(c, expected):
     cplx_of = {s: False for s in sigs}
     for q, s in enumerate(c["from"]):
         cplx_of[s] = c["cplx"][q]
+    parents = {}
     for s, d in c["init"].items():
-        sigs[s].state = concrete(d, cplx_of[s] or any(v[1][0] != 0 for v in d["v"]))
+        st = concrete(d, cplx_of[s] or any(v[1][0] != 0 for v in d["v"]))
+        if real == "prealloc":
+            sigs[s] = pym.Signal("s%d" % s, st, np.zeros_like(st) if isinstance(st, np.ndarray) else 0 * st)
+        elif real == "slice" and isinstance(st, np.ndarray):
+            big = np.concatenate([[9.0], st, [7.0, 5.0]])
+            parents[s] = (pym.Signal("p%d" % s, big), big.copy())
+            sigs[s] = parents[s][0][1:1 + st.size]
+        else:
+            sigs[s].state = st
     mods = [_CL[m["k"]]([sigs[i] for i in m["i"]], [sigs[o] for o in m["o"]]) for m in c["prog"]]
     blk = mods[0] if len(mods) == 1 else pym.Network(mods)
     if len(mods) > 1 or True:
@@ -261,7 +276,10 @@ def run_case(c, expected):
         same = np.array_equal(st, st0) if isinstance(st0, np.ndarray) else st == st0
         if not same:
             return "restore", "source signal %d was changed by the call" % s
-    for s in sigs.values():
+    for s, (par, big0) in parents.items():
+        if not np.array_equal(par.state, big0):
+            return "restore", "the signal that source %d is a slice of was changed by the call" % s
+    for s in list(sigs.values()) + [p for p, _ in parents.values()]:
         if s.sensitivity is not None and np.any(np.asarray(s.sensitivity) != 0):
             return "sens-left", "signal %s still holds a sensitivity after the call" % s.tag
     return None
@@ -283,9 +301,10 @@ def run(chk, replay=None):
     if len(exp) != len(cs):
         raise tlc.TLCError("FiniteDiff emitted %d of %d cases" % (len(exp), len(cs)))
     for c in cs:
-        res = run_case(c, exp[c["id"]])
-        key = {"id": c["id"], "prog": [[m["k"], m["i"], m["o"]] for m in c["prog"]], "from": c["from"], "to": c["to"], "dx": c["dx"],
-               "rel": c["rel"], "keepzero": c["keepzero"]}
-        chk.case(key)
-        if res:
-            chk.violation("C19/" + res[0], "case %d %s: %s" % (c["id"], key["prog"], res[1]), key)
+        for real in (REALISATIONS if replay is None else [replay.get("signals", "plain")]):
+            res = run_case(c, exp[c["id"]], real)
+            key = {"id": c["id"], "prog": [[m["k"], m["i"], m["o"]] for m in c["prog"]], "from": c["from"], "to": c["to"], "dx": c["dx"],
+                   "rel": c["rel"], "keepzero": c["keepzero"], "signals": real}
+            chk.case(key)
+            if res:
+                chk.violation("C19/" + res[0], "case %d %s [%s source signals]: %s" % (c["id"], key["prog"], real, res[1]), key)
